@@ -38,7 +38,10 @@ type vFault struct {
 type vOracle struct {
 	listFail  bool
 	claimFail []bool
-	faults    []vFault
+	faults    []vFault // per segment, indexed by the position of its `seg` line
+	// real-lister cases: which S3 requests of this tick's ListCompleted fail once — "L" ListObjectsV2,
+	// "m" the GetObject of the manifest, "p<i>" the footer probe (ranged GetObject) of segment i
+	s3 []string
 }
 
 type vOp struct {
@@ -51,6 +54,12 @@ type vCase struct {
 	variant string
 	store   string // mem | noop
 	stats   string // "" | next | footer: which offset statistics the fake Lister puts on a SegmentRef (sql only)
+	// "" = scripted Lister (listing = the seg lines in order); "s3" = the REAL s3Lister of the module's
+	// discovery package over an in-process S3 endpoint holding one .kfs/.index pair per seg line;
+	// "manifest" (sql) = the real manifestLister over a manifest.json that names the segments in the
+	// order of the seg lines, with the real s3Lister as fallback; "stale" (sql) = the same with a
+	// manifest that is never refreshed after the first tick
+	lister string
 	segs    []vSeg
 	ops     []vOp
 	head    []string // the case/seg lines, echoed
@@ -126,12 +135,19 @@ func vParseCases(r io.Reader) ([]*vCase, error) {
 		}
 		switch f[0] {
 		case "case":
-			if len(f) != 3 && len(f) != 4 {
+			if len(f) < 3 {
 				return nil, fmt.Errorf("bad case line %q", sc.Text())
 			}
 			cur = &vCase{variant: f[1], store: f[2]}
-			if len(f) == 4 {
-				cur.stats = strings.TrimPrefix(f[3], "stats=")
+			for _, opt := range f[3:] {
+				switch {
+				case strings.HasPrefix(opt, "stats="):
+					cur.stats = strings.TrimPrefix(opt, "stats=")
+				case strings.HasPrefix(opt, "lister="):
+					cur.lister = strings.TrimPrefix(opt, "lister=")
+				default:
+					return nil, fmt.Errorf("bad case line %q", sc.Text())
+				}
 			}
 			cases = append(cases, cur)
 		case "seg":
@@ -152,6 +168,9 @@ func vParseCases(r io.Reader) ([]*vCase, error) {
 					seg.offs = append(seg.offs, o)
 				}
 			}
+			if cur.lister != "" && len(seg.offs) == 0 {
+				return nil, fmt.Errorf("real-lister case with an empty segment %q (its key would collide)", sc.Text())
+			}
 			if len(cur.ops) > 0 {
 				sg := seg
 				cur.ops = append(cur.ops, vOp{addSeg: &sg})
@@ -159,10 +178,20 @@ func vParseCases(r io.Reader) ([]*vCase, error) {
 				cur.segs = append(cur.segs, seg)
 			}
 		case "cycle":
-			if cur == nil || len(f) != 4 {
+			if cur == nil || (len(f) != 4 && len(f) != 5) {
 				return nil, fmt.Errorf("bad cycle line %q", sc.Text())
 			}
 			o := vOracle{listFail: f[1] == "1"}
+			if len(f) == 5 {
+				if !strings.HasPrefix(f[4], "s3=") {
+					return nil, fmt.Errorf("bad cycle line %q", sc.Text())
+				}
+				for _, x := range strings.Split(strings.TrimPrefix(f[4], "s3="), "+") {
+					if x != "" && x != "-" {
+						o.s3 = append(o.s3, x)
+					}
+				}
+			}
 			if f[2] != "-" {
 				for _, c := range f[2] {
 					o.claimFail = append(o.claimFail, c == '1')
@@ -212,6 +241,10 @@ type vHarness struct {
 	lease     int
 	curSeg    int
 	cursor    int
+	listed    []int  // real-lister cases: this tick's listing as indices into segs (-1: not a scripted segment)
+	hasListed bool   // listed is valid (the real lister answered this tick)
+	listedStr string // what the cycle line reports as listed=
+	keyIdx    map[string]int // real-lister cases: S3 key of a .kfs object -> index into segs
 	claimCall int
 	wrote     []string
 	sink      map[[2]int64]bool
@@ -269,6 +302,7 @@ func (h *vHarness) onList() bool {
 	defer h.mu.Unlock()
 	h.flushLocked()
 	h.cursor, h.curSeg, h.claimCall = 0, -1, 0
+	h.listed, h.hasListed, h.listedStr = nil, false, "err"
 	for len(h.ops) > 0 && (h.ops[0].lost || h.ops[0].addSeg != nil) {
 		op := h.ops[0]
 		h.ops = h.ops[1:]
@@ -341,10 +375,25 @@ func (h *vHarness) onRelease() {
 func (h *vHarness) onLoad(tp int) (int64, error) {
 	h.mu.Lock()
 	defer h.mu.Unlock()
-	for h.cursor < len(h.segs) && h.segs[h.cursor].tp != tp {
+	// the segment the loop is at: the next one of the leased partition in THIS tick's listing order
+	at := func(i int) int {
+		if h.hasListed {
+			return h.listed[i]
+		}
+		return i
+	}
+	n := len(h.segs)
+	if h.hasListed {
+		n = len(h.listed)
+	}
+	for h.cursor < n && (at(h.cursor) < 0 || h.segs[at(h.cursor)].tp != tp) {
 		h.cursor++
 	}
-	h.curSeg = h.cursor
+	if h.cursor < n {
+		h.curSeg = at(h.cursor)
+	} else {
+		h.curSeg = len(h.segs)
+	}
 	h.cursor++
 	if h.fault().kind == 'l' {
 		return 0, errVerifInjected
@@ -355,7 +404,10 @@ func (h *vHarness) onLoad(tp int) (int64, error) {
 func (h *vHarness) onDecode(segKey string) ([]int64, int, error) {
 	h.mu.Lock()
 	defer h.mu.Unlock()
-	i := vSegIndex(segKey)
+	i, ok := h.keyIdx[segKey]
+	if !ok {
+		i = vSegIndex(segKey)
+	}
 	if i < 0 || i >= len(h.segs) {
 		return nil, 0, fmt.Errorf("verif: unknown segment %q", segKey)
 	}
@@ -447,7 +499,57 @@ func (h *vHarness) lineLocked() string {
 		early = strings.Join(h.early, ",")
 	}
 	h.early = nil
-	return fmt.Sprintf("cycle lease=%s wrote=%s cp=%s early=%s", lease, wrote, cp, early)
+	line := fmt.Sprintf("cycle lease=%s wrote=%s cp=%s early=%s", lease, wrote, cp, early)
+	if h.c.lister != "" {
+		line += " listed=" + h.listedStr
+	}
+	return line
+}
+
+// s3Oracle is the S3 fault oracle of the cycle in flight (real-lister cases).
+func (h *vHarness) s3Oracle() []string {
+	h.mu.Lock()
+	defer h.mu.Unlock()
+	if h.cur == nil {
+		return nil
+	}
+	return append([]string(nil), h.cur.s3...)
+}
+
+// setKey registers the S3 key of segment i's .kfs object.
+func (h *vHarness) setKey(key string, i int) {
+	h.mu.Lock()
+	defer h.mu.Unlock()
+	if h.keyIdx == nil {
+		h.keyIdx = map[string]int{}
+	}
+	h.keyIdx[key] = i
+}
+
+// setListed records what the real lister answered this tick: the .kfs keys in listing order.
+func (h *vHarness) setListed(keys []string) {
+	h.mu.Lock()
+	defer h.mu.Unlock()
+	h.listed, h.hasListed = nil, true
+	var parts []string
+	for _, k := range keys {
+		i, ok := h.keyIdx[k]
+		if !ok {
+			i = -1
+		}
+		h.listed = append(h.listed, i)
+		parts = append(parts, strconv.Itoa(i))
+	}
+	h.listedStr = "-"
+	if len(parts) > 0 {
+		h.listedStr = strings.Join(parts, ",")
+	}
+}
+
+// vSegObjectKey is the S3 key stem of a segment: <topic>/<partition>/segment-<base offset, 20 digits>.
+func vSegObjectKey(segs []vSeg, i int) string {
+	topic, part := vTopic(segs[i].tp)
+	return fmt.Sprintf("%s/%d/segment-%020d", topic, part, vBase(segs, i))
 }
 
 // vDrive waits until the processor has consumed the whole timeline (the fakes drive it from
